@@ -45,7 +45,8 @@ MC_BIDI = [_mc("MCBidiMap", "MCBidiMap", "bidi map model 3 x 3: MutualInverse, S
 MC_HIST = [_mc("MCMapHist", "MCMapHist_" + k, "abstract map (%s) against the history reading of C01: GetIsHistory, SizeIsLive, EachOnce, RemoveAbsent" % k)
            for k in ("hash", "sorted", "half", "linked")]
 MC_SEQ = [_mc("MCDLL", "MCDLL", "doubly linked list cell model, length <= 4: NoPanic, WF (size, backward chain), GetAgrees; Refines AbsSeq", cfg_thorough="MCDLL_thorough.cfg"),
-          _mc("MCArrayList", "MCArrayList", "array list (elements, cap) model, length <= 5: CapInv; Refines AbsSeq")]
+          _mc("MCArrayList", "MCArrayList", "array list (elements, cap) model, length <= 5: CapInv; Refines AbsSeq"),
+          _mc("MCSLL", "MCSLL", "singly linked list cell model, length <= 4: NoPanic, WF (size, last); Refines AbsSeq")]
 MC_RING = [_mc("MCRing", "MCRing%d" % c, "ring model capacity %d: IndexInv, FullIffSizeCap, SizeAgrees; Refines bounded FIFO" % c) for c in (1, 2, 3, 4)]
 MC_HEAP = [_mc("MCHeap", "MCHeap_" + c, "heap array model, 6 items, comparator %s: HeapOrdered; Refines AbsHeap (Pop is a minimum, bag exact)" % c)
            for c in ("prio", "maxprio", "prioid")]
@@ -99,7 +100,11 @@ PLAN = {
                         dict(job="jf", spec="TraceQue", prop="C05", kinds=["arraystack", "linkedliststack", "arrayqueue", "linkedlistqueue", "circularbuffer"], together=True),
                         dict(job="jf", spec="TraceHeap", prop="C06", kinds=["binaryheap", "priorityqueue"], together=True),
                         dict(job="jf", spec="TraceSet", prop="C04", kinds=["hashset", "treeset", "linkedhashset"], together=True),
-                        dict(job="jf", spec="TraceMap", prop="C01", kinds=["hashmap", "treemap", "linkedhashmap", "hashbidimap", "treebidimap", "redblacktree", "avltree", "btree"], together=True)],
+                        dict(job="jf", spec="TraceMap", prop="C01", kinds=["hashmap", "treemap", "linkedhashmap", "hashbidimap", "treebidimap", "redblacktree", "avltree", "btree"], together=True),
+                        # loads inside the exhaustive tours of every family (every reachable state x a few inputs)
+                        dict(job="seq", spec="TraceSeq"), dict(job="que", spec="TraceQue"), dict(job="heap", spec="TraceHeap"),
+                        dict(job="set", spec="TraceSet"),
+                        dict(job="map", spec="TraceMap", kinds=["hashmap", "treemap", "linkedhashmap", "hashbidimap", "treebidimap", "avltree", "btree"])],
                 mc=MC_JSON, trusted=["encoding/json as reference decoder of the input texts (denotation)"]),
     "C13": dict(level="model_checking", design="6 C13",
                 traces=[dict(job="alg", spec="TraceAlg")],
@@ -120,7 +125,7 @@ PLAN = {
                         dict(job="set", spec="TraceSet"), dict(job="map", spec="TraceMap"), dict(job="alg", spec="TraceAlg"),
                         dict(job="cur", spec="TraceCursor"), dict(job="enum", spec="TraceEnum"),
                         dict(job="json", spec="TraceJSON", together=True), dict(job="alias", spec="TraceAlias", together=True)],
-                mc=MC_SEQ[:1], trusted=["fd-level capture of stdout/stderr (dup2), recover(), watchdog timer in the harness"]),
+                mc=[MC_SEQ[0], MC_SEQ[2]], trusted=["fd-level capture of stdout/stderr (dup2), recover(), watchdog timer in the harness"]),
     "C18": dict(level="exploration", design="6 C18", race=True,
                 traces=[dict(job="rd", spec="TraceReaders", race=True),
                         dict(job="seq", spec="TraceSeq"), dict(job="que", spec="TraceQue"), dict(job="heap", spec="TraceHeap"),
